@@ -1,8 +1,8 @@
 (* C12 — a configuration file means what it says, and nonsense is refused.
    Only statements here; proofs live in Proofs/Config.v.  Gen_C12 is regenerated on every run from
-   pyxel/detectors/{geometry,characteristics,environment}.py, apd/apd_characteristics.py (src_guards)
-   pyxel/configuration/configuration.py (src_checks) and pyxel/exposure/readout.py (src_readout_params,
-   src_replace_carried).  The documented ranges (Model.Config.documented), the mode / detector key lists and the
+   pyxel/detectors/{geometry,characteristics,environment}.py, apd/apd_characteristics.py (src_guards, src_stores)
+   pyxel/configuration/configuration.py (src_checks_doc, src_checks_built, src_mode_dispatch, src_detector_dispatch)
+   and pyxel/exposure/readout.py (src_readout_params, src_replace_carried).  The documented ranges (Model.Config.documented), the mode / detector key lists and the
    list of readout settings are LITERAL. *)
 From Coq Require Import QArith ZArith List Bool String.
 From PyxelV Require Import Model.Config Proofs.Config.
@@ -75,6 +75,39 @@ Example C12_same_limits_coverage :
                 (list_prod (list_prod documented [SCtor; SSetter]) all_classes)) = 194%nat.
 Proof. vm_compute. reflexivity. Qed.
 
+(* ---------------------------------------------------------------------------------- what is stored *)
+
+(* What a constructor / a setter KEEPS of a value is regenerated too (src_stores: the expression assigned to
+   self._<field>).  For every documented field, both sides and EVERY value the field can be given, the value that is
+   stored is the value that was given (a float() of a number is the same number; an int() would not be: 0.5 -> 0,
+   7.9 -> 7, and a check made on the raw value says nothing about the truncated one). *)
+Theorem C12_stored_is_written :
+  forall r s x,
+    In r documented -> well_kinded (d_range r) x = true ->
+    exists op y, store_at src_stores (d_key r) s = Some op /\ stored op x = Some y /\ value_same y x = true.
+Proof. apply check_stores_sound. vm_compute. reflexivity. Qed.
+Print Assumptions C12_stored_is_written.
+
+(* refusal and storage together: whatever gets past the guard is kept as written and therefore satisfies the documented
+   limit — through the constructor / YAML and through the setter / a sweep alike *)
+Theorem C12_accepted_is_kept_in_range :
+  forall r s x k,
+    In r documented -> well_kinded (d_range r) x = true -> class_of x = Some k ->
+    exists g op y, guard_at src_guards (d_key r) s = Some g /\ store_at src_stores (d_key r) s = Some op /\
+                   stored op x = Some y /\ value_same y x = true /\
+                   (accepts g x = true -> in_range (d_range r) y = true).
+Proof. exact (accepted_is_kept_in_range _ _ _ C12_same_limits C12_stored_is_written). Qed.
+Print Assumptions C12_accepted_is_kept_in_range.
+
+(* non-vacuity: the array sizes and the ADC resolution, fractional values included; and what a truncating store does *)
+Example C12_stored_instances :
+  exists g op, guard_at src_guards (CGeometry, "row") SSetter = Some g /\ store_at src_stores (CGeometry, "row") SSetter = Some op /\
+    accepts g (VNum (1 # 2)) = true /\ stored op (VNum (1 # 2)) = Some (VNum (1 # 2)) /\
+    accepts g (VNum 0) = false /\
+    stored StInt (VNum (1 # 2)) = Some (VNum 0) /\ in_range positive (VNum 0) = false /\
+    stored StInt (VNum (63 # 8)) = Some (VNum 7) /\ stored (StFloatIf PNotNone) (VNpNum 300) = Some (VNum 300).
+Proof. vm_compute. repeat eexists. Qed.
+
 (* None means "not specified": the constructor takes it exactly for the fields documented as optional *)
 Theorem C12_none_iff_optional :
   forall r, In r documented ->
@@ -102,33 +135,68 @@ Print Assumptions C12_sweep_same_limits.
 
 (* ---------------------------------------------------------------------------------- exactly one *)
 
-(* for EVERY set of top-level keys: the checks of _build_configuration and Configuration.__post_init__
-   (regenerated) let the document through iff it has exactly one running mode and exactly one detector *)
+(* A document holds, under each top-level key, nothing / an empty section (`key:`) / an empty mapping / a filled
+   section.  The loader of the current source (regenerated: the count checks of _build_configuration WITH their way of
+   counting, the order of its two if/elif chains, the count checks of Configuration.__post_init__) hands the sections
+   m and d to their builders — `dispatch ... st = Some (m, d)` — exactly when m is the ONLY mode key and d the ONLY
+   detector key the document holds, for EVERY assignment of states to keys.  In particular a section that is left
+   empty still counts: it is not skipped in favour of another one, and it does not hide another one. *)
 Theorem C12_exactly_one :
-  forall present : string -> bool,
-    config_accepts src_checks present = true <->
-    exactly_one mode_keys present /\ exactly_one detector_keys present.
-Proof. apply exactly_one_sound. vm_compute. reflexivity. Qed.
+  forall (st : string -> sstate) m d,
+    dispatch src_checks_doc src_checks_built src_mode_dispatch src_detector_dispatch st = Some (m, d) <->
+    only_present mode_keys st m /\ only_present detector_keys st d.
+Proof. apply loader_sound. vm_compute. reflexivity. Qed.
 Print Assumptions C12_exactly_one.
 
-(* and then the section that is used is the one that is present *)
+(* two mode keys (or two detector keys) in one document: refused, whatever the two sections hold *)
+Theorem C12_two_sections_refused :
+  forall (st : string -> sstate) keys k1 k2,
+    keys = mode_keys \/ keys = detector_keys ->
+    In k1 keys -> In k2 keys -> k1 <> k2 -> st k1 <> SAbsent -> st k2 <> SAbsent ->
+    dispatch src_checks_doc src_checks_built src_mode_dispatch src_detector_dispatch st = None.
+Proof. apply two_sections_refused. vm_compute. reflexivity. Qed.
+Print Assumptions C12_two_sections_refused.
+
+(* and a document is never loaded as another mode / detector than one whose section is filled *)
 Theorem C12_exactly_one_uses_it :
-  forall (present : string -> bool) m d,
-    config_accepts src_checks present = true ->
-    In m mode_keys -> present m = true -> In d detector_keys -> present d = true ->
-    used_sections present = [m; d].
-Proof. apply uses_present_section. vm_compute. reflexivity. Qed.
+  forall (st : string -> sstate) m d k,
+    dispatch src_checks_doc src_checks_built src_mode_dispatch src_detector_dispatch st = Some (m, d) ->
+    st k = SFilled -> (In k mode_keys -> k = m) /\ (In k detector_keys -> k = d).
+Proof. apply never_another_section. vm_compute. reflexivity. Qed.
 Print Assumptions C12_exactly_one_uses_it.
 
+(* building the objects in Python and handing them to Configuration(...) directly: for EVERY set of running-mode /
+   detector objects given, the checks of Configuration.__post_init__ (regenerated) let it through iff exactly one
+   running mode and exactly one detector are given *)
+Theorem C12_exactly_one_built :
+  forall given : list string,
+    checks_pass src_checks_built (given_state given) = true <->
+    exactly_one mode_keys (present_of given) /\ exactly_one detector_keys (present_of given).
+Proof. apply built_checks_sound. vm_compute. reflexivity. Qed.
+Print Assumptions C12_exactly_one_built.
+
 Example C12_exactly_one_accepts :
-  config_accepts src_checks (present_of ["pipeline"; "observation"; "apd_detector"]) = true.
+  dispatch src_checks_doc src_checks_built src_mode_dispatch src_detector_dispatch
+           (state_of [("pipeline", SFilled); ("observation", SFilled); ("apd_detector", SFilled)])
+  = Some ("observation", "apd_detector").
 Proof. vm_compute. reflexivity. Qed.
 Example C12_exactly_one_refuses_two_detectors :
-  config_accepts src_checks (present_of ["pipeline"; "exposure"; "ccd_detector"; "cmos_detector"]) = false.
+  dispatch src_checks_doc src_checks_built src_mode_dispatch src_detector_dispatch
+           (state_of (filled_doc ["pipeline"; "exposure"; "ccd_detector"; "cmos_detector"])) = None.
 Proof. vm_compute. reflexivity. Qed.
 Example C12_exactly_one_refuses_no_mode :
-  config_accepts src_checks (present_of ["pipeline"; "ccd_detector"]) = false.
+  dispatch src_checks_doc src_checks_built src_mode_dispatch src_detector_dispatch
+           (state_of (filled_doc ["pipeline"; "ccd_detector"])) = None.
 Proof. vm_compute. reflexivity. Qed.
+(* an empty `exposure:` next to a complete `observation:` is two running modes *)
+Example C12_exactly_one_refuses_empty_next_to_filled :
+  dispatch src_checks_doc src_checks_built src_mode_dispatch src_detector_dispatch
+           (state_of [("exposure", SNull); ("observation", SFilled); ("ccd_detector", SFilled); ("pipeline", SFilled)]) = None /\
+  dispatch src_checks_doc src_checks_built src_mode_dispatch src_detector_dispatch
+           (state_of [("observation", SFilled); ("ccd_detector", SEmptyMap); ("mkid_detector", SFilled)]) = None /\
+  dispatch src_checks_doc src_checks_built src_mode_dispatch src_detector_dispatch
+           (state_of [("exposure", SNull); ("ccd_detector", SFilled)]) = Some ("exposure", "ccd_detector").
+Proof. vm_compute. repeat split; reflexivity. Qed.
 
 (* ---------------------------------------------------------------------------------- settings *)
 
